@@ -97,7 +97,8 @@ def value_code_repr(obj):
     result = code_repr_dispatch(obj)
 
     try:
-        ast.parse(result)
+        # the result has to be an expression (`x=1` or `pass` can be parsed as statements)
+        ast.parse(result, mode="eval")
     except SyntaxError:
         return real_repr(HasRepr(type(obj), result))
 
